@@ -1,4 +1,5 @@
 import MosnVerif.Model.Framing
+import MosnVerif.Model.FrameSpec
 /-! helper lemmas for the generic dispatch loop (core Lean only) -/
 namespace MosnVerif.Model.Framing
 
@@ -176,5 +177,81 @@ theorem drainAll_valid (d : Bytes → Step Bytes) (hs : Stable d) (fs : List Byt
     simp only [List.flatten_cons, List.append_assoc]
     rw [drainAll_frame d hs _ hne2 f f.length hext, List.drop_left,
       ih (fun g hg => hv g (by simp [hg]))]
+
+/-- on a proper prefix of a frame that the decoder accepts, a prefix-stable decoder can only ask for more data -/
+theorem prefix_needMore (d : Bytes → Step Bytes) (hs : Stable d) (g : Bytes) (hg : d g = .frame g g.length)
+    (k : Nat) (hk : k < g.length) : d (g.take k) = .needMore := by
+  have hsplit : g.take k ++ g.drop k = g := List.take_append_drop k g
+  cases hstep : d (g.take k) with
+  | needMore => rfl
+  | error =>
+    have := hs.errExt _ (g.drop k) hstep
+    rw [hsplit, hg] at this
+    cases this
+  | frame f n =>
+    have h1 := hs.ext _ f n (g.drop k) hstep
+    have ⟨_, h2⟩ := hs.pos _ f n hstep
+    rw [hsplit, hg] at h1
+    injection h1 with _ h3
+    rw [List.length_take] at h2
+    omega
+
+/-- an incomplete tail: empty, or a proper prefix of an acceptable frame -/
+def TailOk (d : Bytes → Step Bytes) (t : Bytes) : Prop :=
+  t = [] ∨ ∃ g m, d g = .frame g g.length ∧ m < g.length ∧ t = g.take m
+
+theorem tailOk_take (d : Bytes → Step Bytes) (hs : Stable d) (t : Bytes) (ht : TailOk d t) (k : Nat) :
+    drainAll d (t.take k) = ([], t.take k, false) := by
+  rcases ht with rfl | ⟨g, m, hg, hm, rfl⟩
+  · simp [drainAll_nil]
+  · rw [List.take_take]
+    exact drainAll_needMore d _ (prefix_needMore d hs g hg _ (by omega))
+
+theorem tailOk_needMore (d : Bytes → Step Bytes) (hs : Stable d) (t : Bytes) (ht : TailOk d t) :
+    t = [] ∨ d t = .needMore := by
+  rcases ht with rfl | ⟨g, m, hg, hm, rfl⟩
+  · left; rfl
+  · right; exact prefix_needMore d hs g hg m hm
+
+open MosnVerif.Model.FrameSpec (completeBy splitBy)
+
+theorem splitBy_flatten (fs : List Bytes) (t : Bytes) : splitBy (fs.flatten ++ t) (fs.map List.length) = (fs, t) := by
+  induction fs with
+  | nil => simp [splitBy]
+  | cons f fs ih => simp [splitBy, ih]
+
+/-- after receiving only the first `k` bytes of a stream of acceptable frames (+ incomplete tail), exactly the frames
+that lie wholly inside those `k` bytes have been handed on; the rest — an incomplete frame — is untouched in the buffer -/
+theorem drainAll_prefix (d : Bytes → Step Bytes) (hs : Stable d) (t : Bytes) (ht : TailOk d t) :
+    ∀ (fs : List Bytes) (k : Nat), (∀ f ∈ fs, d f = .frame f f.length) →
+      (drainAll d ((fs.flatten ++ t).take k)).1 = fs.take (completeBy (fs.map List.length) k) ∧
+      (drainAll d ((fs.flatten ++ t).take k)).2.2 = false ∧
+      (fs.take (completeBy (fs.map List.length) k)).flatten ++ (drainAll d ((fs.flatten ++ t).take k)).2.1
+        = (fs.flatten ++ t).take k := by
+  intro fs
+  induction fs with
+  | nil =>
+    intro k _
+    simp [completeBy, tailOk_take d hs t ht k]
+  | cons f fs ih =>
+    intro k hv
+    have hf := hv f (by simp)
+    have ⟨hn0, _⟩ := hs.pos f f f.length hf
+    simp only [List.flatten_cons, List.append_assoc, List.map_cons, completeBy]
+    by_cases hk : f.length ≤ k
+    · have htake : (f ++ (fs.flatten ++ t)).take k = f ++ (fs.flatten ++ t).take (k - f.length) := by
+        rw [List.take_append]; simp [List.take_of_length_le hk]
+      have hne : f ≠ [] := by intro h; subst h; simp at hn0
+      have hne2 : f ++ (fs.flatten ++ t).take (k - f.length) ≠ [] := by simp [hne]
+      have hext := hs.ext f f f.length ((fs.flatten ++ t).take (k - f.length)) hf
+      have ⟨i1, i2, i3⟩ := ih (k - f.length) (fun g hg => hv g (by simp [hg]))
+      rw [htake, drainAll_frame d hs _ hne2 f f.length hext, List.drop_left]
+      simp only [hk, ↓reduceIte, Nat.add_comm 1, List.take_succ_cons, List.flatten_cons, List.append_assoc]
+      exact ⟨by rw [i1], i2, by rw [i3]⟩
+    · have hlt : k < f.length := by omega
+      have htake : (f ++ (fs.flatten ++ t)).take k = f.take k := by
+        rw [List.take_append]; simp [Nat.sub_eq_zero_of_le (Nat.le_of_lt hlt)]
+      rw [htake, drainAll_needMore d _ (prefix_needMore d hs f hf k hlt)]
+      simp [hk]
 
 end MosnVerif.Model.Framing
